@@ -313,11 +313,20 @@ class C19(Check):
         ctx.extern_handlers["uuid.uuid4"] = c19_uuid4
         from checks import c19_cleanup
         c19_cleanup.install(ctx)
+        from pyvc import pyd
+        from checks.sendmsg import MESSAGE
+        pyd.install(ctx)
+        ctx.env_class(MESSAGE)
+        from checks import server as SRV
+        ctx.dynamic_call_hook = SRV.dynamic_call
 
     def contracts(self):
         from checks import c19_cleanup
+        from checks import C04
+        # "every successful initialize creates exactly one session recording the client's info and the answered
+        # version": the initialize handler's contract (C04) is re-verified here
         return [GetSession(), UpdateActivity(), DeleteSession(), SessionCount(), ListSessions(), ClearAll(),
-                CreateSession(True), CreateSession(False), GenerateId()] + c19_cleanup.contracts()
+                CreateSession(True), CreateSession(False), GenerateId()] + c19_cleanup.contracts() + [C04.HandleInitialize()]
 
     def loop_invariants(self):
         from checks import c19_cleanup
